@@ -7,7 +7,7 @@ open Scrapli Scrapli.Resolve
 
   `resolve <fx> <transport> <host> <port|-> <user> <password> <key> <passphrase> <strict> <cfgArg> <khArg>
            <tSocket> <tTransport> <extra> <home> <files> <cfgs> <sshDefault>`
-      fx = 4 characters 0/1 (stripDialedHost cfgPortDialed explicitPortWins rejectDashHost);
+      fx = 5 characters 0/1 (stripDialedHost cfgPortDialed explicitPortWins rejectDashHost rejectDestSyntax);
       cfgArg/khArg = N | A | P<hex>; extra/files = hex lists (`,` separated, "." = empty);
       cfgs = `;` separated `<path>:<port|->:<user>:<identity>` ("." = none); sshDefault = `<port|->:<user>:<identity>`
     -> `ok R=<host>,<port>,<user>,<password>,<key>,<passphrase>,<strict>,<cfg>,<kh> B=<host>,<port> PL=<field>=<v>;… AV=<hex list> PR=<parse> EF=<eff>`
@@ -60,11 +60,11 @@ def decCfgs (s : String) : Option (List (Str × HostCfg)) :=
 
 def decFixes (s : String) : Option Fixes :=
   match s.toList with
-  | [a, b, c, d] => some ⟨a == '1', b == '1', c == '1', d == '1'⟩
+  | [a, b, c, d, e] => some ⟨a == '1', b == '1', c == '1', d == '1', e == '1'⟩
   | _ => none
 
 def errName : Err → String
-  | .noHost => "noHost" | .dashHost => "dashHost" | .keyUnresolvable => "keyUnresolvable"
+  | .noHost => "noHost" | .dashHost => "dashHost" | .destSyntaxHost => "destSyntaxHost" | .keyUnresolvable => "keyUnresolvable"
 
 def perrName : ParseErr → String
   | .unknownOption => "unknownOption" | .missingArgument => "missingArgument" | .noDestination => "noDestination"
